@@ -192,6 +192,9 @@ impl Model {
                 if self.cloneable {
                     ex.out.vals.extend(ids.iter().map(|i| Val::Id(*i)));
                     ex.clones.extend_from_slice(&ids);
+                    // ... and once more through lazy clones pushed into the other backend
+                    ex.out.vals.extend(ids.iter().map(|i| Val::Id(*i)));
+                    ex.clones.extend_from_slice(&ids);
                 }
             }
             Op::LazyMulti(m) => {
